@@ -286,22 +286,28 @@ def _declare_rules(E: Engine, rep: Report) -> None:
     rep.check(any(isinstance(t, ast.Attribute) and norm(t) == "self._in_xy" for t in t2), "DECLARE", "_config_detuning_map|xy-excludes-dmm", "a DMM is refused in XY mode", "_config_detuning_map no longer refuses a DMM in XY mode", E.where(cdm))
     # available_channels filter
     av = E.method(SEQ, "available_channels")
-    src = norm(av.node)
-    conds = []
-    for n in ast.walk(av.node):
-        if isinstance(n, ast.DictComp):
-            for g in n.generators:
-                conds += g.ifs
+    from .. import sym as _symA
+    from .symutil import S as _SA, branches as _brA, has as _hasA, unobj as _unA
+
     ok_occ = False
     ok_xy = False
-    for c in conds:
-        for sub in ast.walk(c):
-            if isinstance(sub, ast.BoolOp) and isinstance(sub.op, ast.Or):
-                parts = [norm(v) for v in sub.values]
-                if any(p.startswith("id not in ") for p in parts) and any("reusable_channels" in p for p in parts):
+    rav = _SA(E, av).ret
+    for conds_, leaf_ in _brA(rav) if rav is not None else []:
+        # the branch taken once a mode is chosen (the other branches list every channel of the device)
+        if not any(_symA.contains(c_, _symA.Pattern("self._in_xy").term) and c_[0] == "or" for c_ in conds_):
+            continue
+        for t_ in _symA.subterms(leaf_):
+            if t_[0] != "comp" or len(t_[3]) != 1:
+                continue
+            filt = t_[3][0][1]
+            el = ("elem", t_[3][0][0], 0)
+            id_, ch_ = ("item", el, 0), ("item", el, 1)
+            for x in _symA.conj_of(filt):
+                m_ = _symA.match(_symA.Pattern("self._device.reusable_channels or Q_id not in Q_occ").term, x)
+                if m_ is not None and m_["Q_id"] == id_:
                     ok_occ = True
-            if isinstance(sub, ast.IfExp) and norm(sub.test) == "self._in_xy":
-                if "ch.basis != 'XY'" in norm(sub.orelse) and "ch.basis == 'XY'" in norm(sub.body):
+                m_ = _symA.match(_symA.Pattern("(Q_ch.basis == 'XY' or QS_dmm) if self._in_xy else Q_ch.basis != 'XY'").term, x)
+                if m_ is not None and m_["Q_ch"] == ch_:
                     ok_xy = True
     rep.check(ok_occ, "DECLARE", "available_channels|occupied-or-reusable", "a channel id stays available iff it is not occupied or the device has reusable channels", "available_channels no longer filters occupied channel ids (declare-once broken)", E.where(av))
     rep.check(ok_xy, "DECLARE", "available_channels|xy-split", "XY channels and non-XY channels never coexist in the available set", "available_channels no longer separates XY from non-XY channels", E.where(av))
